@@ -14,8 +14,31 @@ B = 16384
 SOURCES = ["own", "own", "ref", "ref-notrail", "ref-nolen"]
 
 
+SCALED = [False]
+
+
+import contextlib
+
+
+@contextlib.contextmanager
+def scaled(block=64):
+    """Scaled mode: BLOCK_SIZE patched in this process, tiny piece lengths, reference-encoder
+    metafiles only (the creators insist on >= 16 KiB); the Lean models are parametric in B."""
+    global B
+    old = B
+    B = block
+    SCALED[0] = True
+    impl.set_block(block)
+    try:
+        yield
+    finally:
+        B = old
+        SCALED[0] = False
+        impl.set_block(16384)
+
+
 def make_case(rng, tier, damage, max_damage=4):
-    pl = gen.pick_pl(rng)
+    pl = gen.pick_pl(rng, B)
     version = rng.choice([1, 2, 3])
     single = rng.random() < 0.2
     if single:
@@ -32,6 +55,8 @@ def make_case(rng, tier, damage, max_damage=4):
                        for r, _ in files[1:]):
                 files[0] = (clash, blob)
     source = rng.choice(SOURCES)
+    if SCALED[0] and source == "own":
+        source = "ref"
     if source == "ref-notrail" and (version != 3 or single):
         source = "ref"
     if source == "ref-nolen" and (version != 2 or not single):
@@ -182,7 +207,7 @@ def build(box, case):
         ref = refspec.ref_metafile(
             name, [((name,) if single else tuple(rel.split("/")), b.bytes()) for rel, b in order],
             pl, version, single=single, trailing_pad=(case["source"] != "ref-notrail"),
-            with_length=(case["source"] != "ref-nolen"),
+            with_length=(case["source"] != "ref-nolen"), block=B,
             extra={"announce": "http://t/a", "created by": "ref"})
         raw = refspec.encode(ref)
         with open(mpath, "wb") as fd:
